@@ -36,19 +36,21 @@ type ssaFunc = ssa.Function
 
 // Ctx is the analysed program.
 type Ctx struct {
-	RepoDir string
-	Cfg     Config
-	Pkgs    []*packages.Package
-	Fset    *token.FileSet
-	Prog    *ssa.Program
-	SSA     map[string]*ssa.Package // by import path
-	Types   map[string]*types.Package
-	PkgOf   map[string]*packages.Package
-	helpers map[*ssa.Function]*helperInfo // private helpers (inline.go)
-	Funcs   []*ssa.Function               // all repo functions incl. anonymous ones, sorted by position
-	CG      *callgraph.Graph
-	CHA     *callgraph.Graph
-	UseCHA  bool
+	RepoDir   string
+	Cfg       Config
+	Pkgs      []*packages.Package
+	Fset      *token.FileSet
+	Prog      *ssa.Program
+	alias     map[*types.Var]*aliasTarget
+	aliasDone bool
+	SSA       map[string]*ssa.Package // by import path
+	Types     map[string]*types.Package
+	PkgOf     map[string]*packages.Package
+	helpers   map[*ssa.Function]*helperInfo // private helpers (inline.go)
+	Funcs     []*ssa.Function               // all repo functions incl. anonymous ones, sorted by position
+	CG        *callgraph.Graph
+	CHA       *callgraph.Graph
+	UseCHA    bool
 
 	// caches
 	fnByName   map[string]*ssa.Function
@@ -407,12 +409,77 @@ func loadedField(v ssa.Value) (owner *types.Named, f *types.Var, base ssa.Value)
 	switch x := v.(type) {
 	case *ssa.UnOp:
 		if x.Op == token.MUL {
-			return fieldOf(x.X)
+			owner, f, base = fieldOf(x.X)
 		}
 	case *ssa.Field:
-		return fieldOf(x)
+		owner, f, base = fieldOf(x)
 	}
-	return nil, nil, nil
+	// a field that only ever holds a copy of the reference kept in another field (a helper structure made with
+	// `filer{dict: d.dict}`) stands for that field
+	if f != nil && curCtx != nil {
+		if tgt := curCtx.aliasFields()[f]; tgt != nil {
+			return tgt.owner, tgt.field, base
+		}
+	}
+	return owner, f, base
+}
+
+type aliasTarget struct {
+	owner *types.Named
+	field *types.Var
+}
+
+// aliasFields: unexported map- or pointer-typed fields of unexported repository structures every store into which is a
+// load of one and the same other field (of the same type).
+func (c *Ctx) aliasFields() map[*types.Var]*aliasTarget {
+	if c.aliasDone {
+		return c.alias
+	}
+	c.aliasDone = true
+	c.alias = map[*types.Var]*aliasTarget{}
+	cand := map[*types.Var]*aliasTarget{}
+	dead := map[*types.Var]bool{}
+	for _, fn := range c.Funcs {
+		if !c.isRepoFn(fn) {
+			continue
+		}
+		eachInstr(fn, func(in ssa.Instruction) {
+			st, isS := in.(*ssa.Store)
+			if !isS {
+				return
+			}
+			owner, f, _ := fieldOf(st.Addr)
+			if f == nil || owner == nil || f.Exported() || owner.Obj().Exported() {
+				return
+			}
+			if _, isMap := f.Type().Underlying().(*types.Map); !isMap {
+				return
+			}
+			var so *types.Named
+			var sf *types.Var
+			switch x := st.Val.(type) {
+			case *ssa.UnOp:
+				if x.Op == token.MUL {
+					so, sf, _ = fieldOf(x.X)
+				}
+			}
+			if sf == nil || sf == f || !types.Identical(sf.Type(), f.Type()) {
+				dead[f] = true
+				return
+			}
+			if old := cand[f]; old != nil && old.field != sf {
+				dead[f] = true
+				return
+			}
+			cand[f] = &aliasTarget{so, sf}
+		})
+	}
+	for f, t := range cand {
+		if !dead[f] {
+			c.alias[f] = t
+		}
+	}
+	return c.alias
 }
 
 // AccessPath renders the chain root.f1.f2 for a value or address, following
